@@ -29,6 +29,8 @@ type Profile struct {
 	Mods func() []Module
 	// Tune adjusts the sampled engine configuration (block counts, rates) for the profile.
 	Tune func(cfg *EngineConfig, rng *Rand)
+	// Weights overrides the modules' share of generated operations in this profile.
+	Weights map[string]int
 }
 
 // Property ties a property id to the profile that explores it and to its evidence rules.
@@ -104,7 +106,7 @@ func Run(spec RunSpec) (res *RunResult) {
 	w := &World{
 		Seed: spec.Seed, Labels: map[string]string{}, modIdx: map[string]Module{},
 		violKey: map[string]bool{}, Counts: map[string]int64{}, States: map[[8]byte]struct{}{},
-		gasMax: map[string]uint64{}, denoms: map[string]*big.Int{}, Ledger: NewLedger(),
+		gasMax: map[string]uint64{}, gasMin: map[string]uint64{}, denoms: map[string]*big.Int{}, Ledger: NewLedger(),
 		Focus: spec.Property, Replay: spec.Replay != nil,
 	}
 	res = &RunResult{Seed: spec.Seed, Property: spec.Property}
@@ -124,6 +126,7 @@ func Run(spec RunSpec) (res *RunResult) {
 	}()
 
 	rng := NewRand(Mix(spec.Seed, "run", 0))
+	w.weights = prof.Weights
 	w.Mods = prof.Mods()
 	for _, m := range w.Mods {
 		w.modIdx[m.Name()] = m
@@ -480,6 +483,14 @@ func (w *World) execBlock(bp *BlockPlan) bool {
 	}
 	w.Height++
 	w.Time = w.Time.Add(time.Duration(bp.DeltaNs))
+	if w.Cfg.HostFollowsChain {
+		// a validator executes a block when it is produced: its host clock reads about the
+		// block's time. The simulator moves the (fake) host clock; nothing sleeps for real.
+		if d := w.Time.Sub(time.Now()); d > 0 {
+			time.Sleep(d)
+			w.Hit("clock.host_synced_to_block_time")
+		}
+	}
 	w.SimSpan += time.Duration(bp.DeltaNs)
 	blk := &Block{Height: w.Height, Time: w.Time}
 	var included []*TxPlan
@@ -652,6 +663,9 @@ func (w *World) noteTx(tr *TxRecord) {
 			if uint64(tr.GasUsed) > w.gasMax[kind] {
 				w.gasMax[kind] = uint64(tr.GasUsed)
 			}
+			if mn, ok := w.gasMin[kind]; !ok || uint64(tr.GasUsed) < mn {
+				w.gasMin[kind] = uint64(tr.GasUsed)
+			}
 		}
 	case tr.Infra:
 		cls = "infra"
@@ -711,6 +725,9 @@ func (w *World) generate(rng *Rand) {
 		weights[i] = 10
 		if wm, ok := m.(interface{ Weight() int }); ok {
 			weights[i] = wm.Weight()
+		}
+		if v, ok := w.weights[m.Name()]; ok {
+			weights[i] = v
 		}
 	}
 	for w.Height < mainEnd {
@@ -779,8 +796,16 @@ func (w *World) generate(rng *Rand) {
 				continue
 			}
 			if !tp.NoOOG && w.Cfg.POOG > 0 && rng.Bool(w.Cfg.POOG) {
-				if mx := w.gasMax[txKind(tp)]; mx > gasFloor+1000 {
-					tp.Gas = gasFloor + uint64(rng.Int63n(int64(mx-gasFloor)))
+				if mx, mn := w.gasMax[txKind(tp)], w.gasMin[txKind(tp)]; mx > 0 {
+					// between a little above half of the cheapest accepted transaction of this
+					// kind (the ante handler's share is about that much) and the dearest
+					lo := mn*55/100 + 2000
+					if lo < gasFloor {
+						lo = gasFloor
+					}
+					if mx > lo+500 {
+						tp.Gas = lo + uint64(rng.Int63n(int64(mx-lo)))
+					}
 				}
 			}
 		}
@@ -870,7 +895,7 @@ func cloneTx(tp *TxPlan) *TxPlan {
 // gasFloor is comfortably above what the ante handler consumes for the harness's
 // single-signer transactions, so that an injected gas limit lets the tx reach the message
 // handler and its sequence increment.
-const gasFloor = 90_000
+const gasFloor = 20_000
 
 func (w *World) finish(res *RunResult, prop *Property) {
 	res.Violations = w.Viol
